@@ -19,6 +19,8 @@ fn run_labels(case: &TrainCase, run: &TrainRun, cx: &mut Ctx) {
         _ => "slts_link_by_link",
     });
     cx.label_if(case.train.dummy, "dummy_consist");
+    cx.label_if(case.init_offset_extra > 0.0, "starts_further_along_the_path");
+    cx.label_if(case.and_parts, "built_through_and_parts_constructor");
     cx.label_if(case.train.length_override.is_some(), "length_override");
     cx.label_if(case.train.mass_override.is_some(), "mass_override");
     cx.label_if(case.train.cars.len() > 1, "car_mix");
